@@ -20,9 +20,9 @@ type enumAdapter struct {
 	findNone Pair
 	// selectF runs Select with cb and returns a validator of the result against the
 	// expected matching elements, the result object, and a mutator of the result.
-	selectF func(cb func(a, b any) bool) (check func(exp []Pair) *Viol, res any, mutate func())
+	selectF func(cb func(a, b any) bool) (check func(exp []Pair) *Viol, res any, mutate func(), box func(exp []Pair) Box)
 	// mapF: cb returns the codomain index chosen for (a, b)
-	mapF     func(cb func(a, b any) int) (check func(chosen []int) *Viol, res any, mutate func())
+	mapF     func(cb func(a, b any) int) (check func(chosen []int) *Viol, res any, mutate func(), box func(chosen []int) Box)
 	codomain int // number of codomain elements
 	recvKey  func() string
 	recvObj  any
@@ -45,10 +45,106 @@ func retag(v *Viol, prop, prefix string) *Viol {
 	return &Viol{Props: []string{prop}, Class: v.Class, Msg: prefix + v.Msg}
 }
 
-func enumCheck(ad *enumAdapter, maxMapFns int, st *Stats) *Viol {
+// enumPred is one predicate over positions; for n <= maxAll the family is ALL 2^n truth tables, above
+// it a fixed family (reported in the evidence as enum_states_family_mode).
+type enumPred struct {
+	name string
+	at   func(i int) bool
+}
+
+func enumPreds(n, maxAll int) []enumPred {
+	var ps []enumPred
+	if n <= maxAll {
+		for mask := 0; mask < 1<<uint(n); mask++ {
+			mask := mask
+			ps = append(ps, enumPred{fmt.Sprintf("truth table %b", mask), func(i int) bool { return mask&(1<<uint(i)) != 0 }})
+		}
+		return ps
+	}
+	return []enumPred{
+		{"never", func(i int) bool { return false }}, {"always", func(i int) bool { return true }},
+		{"first", func(i int) bool { return i == 0 }}, {"last", func(i int) bool { return i == n-1 }},
+		{"middle", func(i int) bool { return i == n/2 }}, {"all but middle", func(i int) bool { return i != n/2 }},
+		{"even", func(i int) bool { return i%2 == 0 }}, {"odd", func(i int) bool { return i%2 == 1 }},
+		{"front half", func(i int) bool { return i < n/2 }}, {"back half", func(i int) bool { return i >= n/2 }},
+		{"every third", func(i int) bool { return i%3 == 0 }}, {"all but last", func(i int) bool { return i != n-1 }},
+		{"all but first", func(i int) bool { return i != 0 }},
+	}
+}
+
+// enumMaps: every function from positions into the codomain (k^n, capped by maxFns and reported) for
+// n <= maxAll, a fixed family above it.
+func enumMaps(n, k, maxAll, maxFns int, st *Stats) [][]int {
+	var fs [][]int
+	if k == 0 {
+		return nil
+	}
+	if n <= maxAll {
+		total := 1
+		for i := 0; i < n; i++ {
+			total *= k
+		}
+		if total > maxFns {
+			st.Nested["map_function_spaces_capped"]++
+			total = maxFns
+		}
+		for fn := 0; fn < total; fn++ {
+			choice := make([]int, n)
+			x := fn
+			for i := 0; i < n; i++ {
+				choice[i] = x % k
+				x /= k
+			}
+			fs = append(fs, choice)
+		}
+		return fs
+	}
+	for _, f := range []func(i int) int{
+		func(i int) int { return 0 }, func(i int) int { return k - 1 }, func(i int) int { return i % k },
+		func(i int) int { return (i / 2) % k }, func(i int) int { return (n - 1 - i) % k }, func(i int) int {
+			if i == n/2 {
+				return k - 1
+			}
+			return 0
+		}} {
+		choice := make([]int, n)
+		for i := range choice {
+			choice[i] = f(i)
+		}
+		fs = append(fs, choice)
+	}
+	return fs
+}
+
+// resultAsRoot: the container returned by Select / Map is itself a start state - every operation of
+// the alphabet is applied to a freshly computed result, each step under the family's own oracle.
+func resultAsRoot(mk func() Box, what string, st *Stats) *Viol {
+	b0 := mk()
+	if b0 == nil {
+		return nil
+	}
+	for _, o := range b0.Ops() {
+		rb := mk()
+		d := rb.Describe(o)
+		v := safeStep(rb, o, nil)
+		if v == nil {
+			v = safeCheck(rb.CheckState, nil, "state observers of the result")
+		}
+		st.Nested["result_followup_transitions"]++
+		if v != nil {
+			return &Viol{Props: []string{"C14"}, Class: v.Class, Msg: fmt.Sprintf("%s, then %s on the result: %s", what, d, v.Msg)}
+		}
+	}
+	return nil
+}
+
+func enumCheck(ad *enumAdapter, maxAll, maxMapFns int, st *Stats) *Viol {
 	p := tag("C14")
 	n := len(ad.seq)
 	key0 := ad.recvKey()
+	if n > maxAll {
+		st.Nested["enum_states_family_mode"]++
+	}
 	var log []Pair
 	checkLog := func(what string, full bool, stopAt int) *Viol {
 		// log must be the iteration sequence (full) or its prefix ending at stopAt (inclusive); a
@@ -66,6 +162,8 @@ func enumCheck(ad *enumAdapter, maxMapFns int, st *Stats) *Viol {
 		}
 		return nil
 	}
+	// positions by callback argument: the invocation order is checked against the iterator's
+	// sequence, so the k-th invocation is position k (posOf is kept for small n as a cross-check)
 	// Each
 	log = nil
 	ad.each(func(a, b any) { log = append(log, Pair{a, b}) })
@@ -73,35 +171,38 @@ func enumCheck(ad *enumAdapter, maxMapFns int, st *Stats) *Viol {
 		return v
 	}
 	st.Nested["enum_calls"]++
-	for mask := 0; mask < 1<<uint(n); mask++ {
+	preds := enumPreds(n, maxAll)
+	for pi, ep := range preds {
 		inflightSeq.Add(1)
+		ep := ep
 		pred := func(a, b any) bool {
 			log = append(log, Pair{a, b})
 			i := posOf(ad.seq, a)
-			return i >= 0 && mask&(1<<uint(i)) != 0
+			return i >= 0 && ep.at(i)
 		}
+		quiet := func(a, b any) bool { i := posOf(ad.seq, a); return i >= 0 && ep.at(i) }
 		first := -1
 		firstNot := -1
 		for i := 0; i < n; i++ {
-			if mask&(1<<uint(i)) != 0 && first < 0 {
+			if ep.at(i) && first < 0 {
 				first = i
 			}
-			if mask&(1<<uint(i)) == 0 && firstNot < 0 {
+			if !ep.at(i) && firstNot < 0 {
 				firstNot = i
 			}
 		}
 		log = nil
 		if got := ad.anyF(pred); got != (first >= 0) {
-			return viol(p, "mismatch", "Any(truth table %b) on %s %v = %v", mask, ad.name, ad.seq, got)
+			return viol(p, "mismatch", "Any(%s) on %s %v = %v", ep.name, ad.name, ad.seq, got)
 		}
-		if v := checkLog(fmt.Sprintf("Any(%b)", mask), false, first); v != nil {
+		if v := checkLog(fmt.Sprintf("Any(%s)", ep.name), false, first); v != nil {
 			return v
 		}
 		log = nil
 		if got := ad.allF(pred); got != (firstNot < 0) {
-			return viol(p, "mismatch", "All(truth table %b) on %s %v = %v", mask, ad.name, ad.seq, got)
+			return viol(p, "mismatch", "All(%s) on %s %v = %v", ep.name, ad.name, ad.seq, got)
 		}
-		if v := checkLog(fmt.Sprintf("All(%b)", mask), false, firstNot); v != nil {
+		if v := checkLog(fmt.Sprintf("All(%s)", ep.name), false, firstNot); v != nil {
 			return v
 		}
 		log = nil
@@ -111,36 +212,40 @@ func enumCheck(ad *enumAdapter, maxMapFns int, st *Stats) *Viol {
 			want = ad.seq[first]
 		}
 		if !pairEq(Pair{fa, fb}, want) {
-			return viol(p, "mismatch", "Find(truth table %b) on %s %v = (%v, %v), want %v", mask, ad.name, ad.seq, fa, fb, want)
+			return viol(p, "mismatch", "Find(%s) on %s %v = (%v, %v), want %v", ep.name, ad.name, ad.seq, fa, fb, want)
 		}
-		if v := checkLog(fmt.Sprintf("Find(%b)", mask), false, first); v != nil {
+		if v := checkLog(fmt.Sprintf("Find(%s)", ep.name), false, first); v != nil {
 			return v
 		}
 		log = nil
-		check, res, mutate := ad.selectF(pred)
-		if v := checkLog(fmt.Sprintf("Select(%b)", mask), true, -1); v != nil {
+		check, res, mutate, _ := ad.selectF(pred)
+		if v := checkLog(fmt.Sprintf("Select(%s)", ep.name), true, -1); v != nil {
 			return v
 		}
 		var exp []Pair
 		for i := 0; i < n; i++ {
-			if mask&(1<<uint(i)) != 0 {
+			if ep.at(i) {
 				exp = append(exp, ad.seq[i])
 			}
 		}
 		if v := check(exp); v != nil {
-			return retag(v, "C14", fmt.Sprintf("Select(truth table %b) on %s %v: result: ", mask, ad.name, ad.seq))
+			return retag(v, "C14", fmt.Sprintf("Select(%s) on %s %v: result: ", ep.name, ad.name, ad.seq))
 		}
 		if res == ad.recvObj {
 			return viol(p, "invariant", "Select on %s returned the receiver itself", ad.name)
 		}
 		st.Nested["enum_calls"] += 4
-		if mask == (1<<uint(n))-1 || mask == 1 {
+		if v := resultAsRoot(func() Box { _, _, _, box := ad.selectF(quiet); return box(exp) },
+			fmt.Sprintf("Select(%s) on %s %v", ep.name, ad.name, ad.seq), st); v != nil {
+			return v
+		}
+		if pi == len(preds)-1 || pi == 1 || ep.name == "always" || ep.name == "first" {
 			// independence (also catches package-level scratch state): a second result, then
 			// mutate the first; the receiver and the second result must not change
-			check2, _, _ := ad.selectF(func(a, b any) bool { i := posOf(ad.seq, a); return i >= 0 && mask&(1<<uint(i)) != 0 })
+			check2, _, _, _ := ad.selectF(quiet)
 			mutate()
 			if v := check2(exp); v != nil {
-				return retag(v, "C14", fmt.Sprintf("Select(%b) on %s: mutating one result changed a second result: ", mask, ad.name))
+				return retag(v, "C14", fmt.Sprintf("Select(%s) on %s: mutating one result changed a second result: ", ep.name, ad.name))
 			}
 			if k := ad.recvKey(); k != key0 {
 				return viol(p, "invariant", "mutating the result of Select on %s changed the receiver: %s -> %s", ad.name, clip(key0, 300), clip(k, 300))
@@ -158,25 +263,13 @@ func enumCheck(ad *enumAdapter, maxMapFns int, st *Stats) *Viol {
 			}
 		}
 	}
-	// Map: every function from positions into the codomain (k^n), capped by maxMapFns (reported)
-	total := 1
-	for i := 0; i < n; i++ {
-		total *= ad.codomain
-	}
-	if total > maxMapFns {
-		st.Nested["map_function_spaces_capped"]++
-		total = maxMapFns
-	}
-	for fn := 0; fn < total; fn++ {
+	// Map
+	fns := enumMaps(n, ad.codomain, maxAll, maxMapFns, st)
+	for fi, choice := range fns {
 		inflightSeq.Add(1)
-		choice := make([]int, n)
-		x := fn
-		for i := 0; i < n; i++ {
-			choice[i] = x % ad.codomain
-			x /= ad.codomain
-		}
+		choice := choice
 		log = nil
-		check, res, mutate := ad.mapF(func(a, b any) int {
+		check, res, mutate, _ := ad.mapF(func(a, b any) int {
 			log = append(log, Pair{a, b})
 			i := posOf(ad.seq, a)
 			if i < 0 {
@@ -195,7 +288,23 @@ func enumCheck(ad *enumAdapter, maxMapFns int, st *Stats) *Viol {
 		}
 		st.Nested["enum_calls"]++
 		st.Nested["map_functions"]++
-		if fn == 0 || fn == total-1 {
+		// the result as a start state: for every function when there are at most 27 of them,
+		// otherwise for the constant, the last and every 13th function
+		if len(fns) <= 27 || fi == 0 || fi == len(fns)-1 || fi%13 == 0 {
+			if v := resultAsRoot(func() Box {
+				_, _, _, box := ad.mapF(func(a, b any) int {
+					i := posOf(ad.seq, a)
+					if i < 0 {
+						return 0
+					}
+					return choice[i]
+				})
+				return box(choice)
+			}, fmt.Sprintf("Map(position -> codomain %v) on %s %v", choice, ad.name, ad.seq), st); v != nil {
+				return v
+			}
+		}
+		if fi == 0 || fi == len(fns)-1 {
 			mutate()
 			if k := ad.recvKey(); k != key0 {
 				return viol(p, "invariant", "mutating the result of Map on %s changed the receiver: %s -> %s", ad.name, clip(key0, 300), clip(k, 300))
@@ -225,25 +334,37 @@ func (b *listBox[T]) enumAdapter() *enumAdapter {
 		anyF: func(cb func(a, b any) bool) bool { return b.a.anyF(func(i int, v T) bool { return cb(i, v) }) },
 		allF: func(cb func(a, b any) bool) bool { return b.a.allF(func(i int, v T) bool { return cb(i, v) }) },
 		find: func(cb func(a, b any) bool) (any, any) { return b.a.find(func(i int, v T) bool { return cb(i, v) }) },
-		selectF: func(cb func(a, b any) bool) (func([]Pair) *Viol, any, func()) {
+		selectF: func(cb func(a, b any) bool) (func([]Pair) *Viol, any, func(), func([]Pair) Box) {
 			r := b.a.selectF(func(i int, v T) bool { return cb(i, v) })
 			return func(exp []Pair) *Viol {
-				rb := &listBox[T]{sys: b.sys, a: r}
-				for _, e := range exp {
-					rb.ref = append(rb.ref, e.B.(T))
+					rb := &listBox[T]{sys: b.sys, a: r}
+					for _, e := range exp {
+						rb.ref = append(rb.ref, e.B.(T))
+					}
+					return rb.CheckState()
+				}, r.obj, func() { r.add(b.sys.Poison); r.set(0, b.sys.Poison); r.remove(0) }, func(exp []Pair) Box {
+					rb := &listBox[T]{sys: b.sys, a: r, next: b.next + 1000}
+					for _, e := range exp {
+						rb.ref = append(rb.ref, e.B.(T))
+					}
+					return rb
 				}
-				return rb.CheckState()
-			}, r.obj, func() { r.add(b.sys.Poison); r.set(0, b.sys.Poison); r.remove(0) }
 		},
-		mapF: func(cb func(a, b any) int) (func([]int) *Viol, any, func()) {
+		mapF: func(cb func(a, b any) int) (func([]int) *Viol, any, func(), func([]int) Box) {
 			r := b.a.mapF(func(i int, v T) T { return cod[cb(i, v)] })
 			return func(ch []int) *Viol {
-				rb := &listBox[T]{sys: b.sys, a: r}
-				for _, c := range ch {
-					rb.ref = append(rb.ref, cod[c])
+					rb := &listBox[T]{sys: b.sys, a: r}
+					for _, c := range ch {
+						rb.ref = append(rb.ref, cod[c])
+					}
+					return rb.CheckState()
+				}, r.obj, func() { r.add(b.sys.Poison); r.set(0, b.sys.Poison); r.remove(0) }, func(ch []int) Box {
+					rb := &listBox[T]{sys: b.sys, a: r, next: b.next + 1000}
+					for _, c := range ch {
+						rb.ref = append(rb.ref, cod[c])
+					}
+					return rb
 				}
-				return rb.CheckState()
-			}, r.obj, func() { r.add(b.sys.Poison); r.set(0, b.sys.Poison); r.remove(0) }
 		}}
 }
 
@@ -265,38 +386,50 @@ func (b *setBox[T]) enumAdapter() *enumAdapter {
 		anyF: func(cb func(a, b any) bool) bool { return b.a.anyF(func(i int, v T) bool { return cb(i, v) }) },
 		allF: func(cb func(a, b any) bool) bool { return b.a.allF(func(i int, v T) bool { return cb(i, v) }) },
 		find: func(cb func(a, b any) bool) (any, any) { return b.a.find(func(i int, v T) bool { return cb(i, v) }) },
-		selectF: func(cb func(a, b any) bool) (func([]Pair) *Viol, any, func()) {
+		selectF: func(cb func(a, b any) bool) (func([]Pair) *Viol, any, func(), func([]Pair) Box) {
 			r := b.a.selectF(func(i int, v T) bool { return cb(i, v) })
 			return func(exp []Pair) *Viol {
-				rb := &setBox[T]{sys: b.sys, a: r}
-				for _, e := range exp {
-					rb.refAdd(e.B.(T))
+					rb := &setBox[T]{sys: b.sys, a: r}
+					for _, e := range exp {
+						rb.refAdd(e.B.(T))
+					}
+					return rb.CheckState()
+				}, r.obj, func() { r.add(b.sys.Absent); r.remove(cod[0]); r.clear() }, func(exp []Pair) Box {
+					rb := &setBox[T]{sys: b.sys, a: r, next: b.next + 1000}
+					for _, e := range exp {
+						rb.refAdd(e.B.(T))
+					}
+					return rb
 				}
-				return rb.CheckState()
-			}, r.obj, func() { r.add(b.sys.Absent); r.remove(cod[0]); r.clear() }
 		},
-		mapF: func(cb func(a, b any) int) (func([]int) *Viol, any, func()) {
+		mapF: func(cb func(a, b any) int) (func([]int) *Viol, any, func(), func([]int) Box) {
 			r := b.a.mapF(func(i int, v T) T { return cod[cb(i, v)] })
 			return func(ch []int) *Viol {
-				rb := &setBox[T]{sys: b.sys, a: r}
-				for _, c := range ch {
-					rb.refAdd(cod[c])
+					rb := &setBox[T]{sys: b.sys, a: r}
+					for _, c := range ch {
+						rb.refAdd(cod[c])
+					}
+					if v := rb.CheckState(); v != nil {
+						return v
+					}
+					// "built by inserting the mapped elements in iteration order": exactly what a fresh set of
+					// the same kind holds after adding them one by one (this fixes WHICH of several
+					// equal-comparing images is kept)
+					fresh := b.sys.newAPI()
+					for _, c := range ch {
+						fresh.add(cod[c])
+					}
+					if got, want := r.values(), fresh.values(); !eqSlice(got, want) {
+						return viol(tag("C14"), "mismatch", "Values() = %v, but adding the mapped elements one by one to a fresh %s gives %v", got, b.a.name, want)
+					}
+					return nil
+				}, r.obj, func() { r.add(b.sys.Absent); r.remove(cod[0]); r.clear() }, func(ch []int) Box {
+					rb := &setBox[T]{sys: b.sys, a: r, next: b.next + 1000}
+					for _, c := range ch {
+						rb.refAdd(cod[c])
+					}
+					return rb
 				}
-				if v := rb.CheckState(); v != nil {
-					return v
-				}
-				// "built by inserting the mapped elements in iteration order": exactly what a fresh set of
-				// the same kind holds after adding them one by one (this fixes WHICH of several
-				// equal-comparing images is kept)
-				fresh := b.sys.newAPI()
-				for _, c := range ch {
-					fresh.add(cod[c])
-				}
-				if got, want := r.values(), fresh.values(); !eqSlice(got, want) {
-					return viol(tag("C14"), "mismatch", "Values() = %v, but adding the mapped elements one by one to a fresh %s gives %v", got, b.a.name, want)
-				}
-				return nil
-			}, r.obj, func() { r.add(b.sys.Absent); r.remove(cod[0]); r.clear() }
 		}}
 }
 
@@ -333,39 +466,51 @@ func (b *kvBox[K, V]) enumAdapter() *enumAdapter {
 		anyF: func(cb func(a, b any) bool) bool { return b.a.anyF(func(k K, v V) bool { return cb(k, v) }) },
 		allF: func(cb func(a, b any) bool) bool { return b.a.allF(func(k K, v V) bool { return cb(k, v) }) },
 		find: func(cb func(a, b any) bool) (any, any) { return b.a.find(func(k K, v V) bool { return cb(k, v) }) },
-		selectF: func(cb func(a, b any) bool) (func([]Pair) *Viol, any, func()) {
+		selectF: func(cb func(a, b any) bool) (func([]Pair) *Viol, any, func(), func([]Pair) Box) {
 			r := b.a.selectF(func(k K, v V) bool { return cb(k, v) })
 			return func(exp []Pair) *Viol {
-				rb := &kvBox[K, V]{sys: b.sys, a: r}
-				for _, e := range exp {
-					rb.refPut(e.A.(K), e.B.(V))
+					rb := &kvBox[K, V]{sys: b.sys, a: r}
+					for _, e := range exp {
+						rb.refPut(e.A.(K), e.B.(V))
+					}
+					return rb.CheckState()
+				}, r.obj, func() { r.put(b.sys.KU[len(b.sys.KU)-1], lastV); r.remove(b.sys.KU[0]); r.clear() }, func(exp []Pair) Box {
+					rb := &kvBox[K, V]{sys: b.sys, a: r}
+					for _, e := range exp {
+						rb.refPut(e.A.(K), e.B.(V))
+					}
+					return rb
 				}
-				return rb.CheckState()
-			}, r.obj, func() { r.put(b.sys.KU[len(b.sys.KU)-1], lastV); r.remove(b.sys.KU[0]); r.clear() }
 		},
-		mapF: func(cb func(a, b any) int) (func([]int) *Viol, any, func()) {
+		mapF: func(cb func(a, b any) int) (func([]int) *Viol, any, func(), func([]int) Box) {
 			r := b.a.mapF(func(k K, v V) (K, V) { c := cod[cb(k, v)]; return c.k, c.v })
 			return func(ch []int) *Viol {
-				rb := &kvBox[K, V]{sys: b.sys, a: r}
-				for _, c := range ch {
-					rb.refPut(cod[c].k, cod[c].v)
+					rb := &kvBox[K, V]{sys: b.sys, a: r}
+					for _, c := range ch {
+						rb.refPut(cod[c].k, cod[c].v)
+					}
+					if v := rb.CheckState(); v != nil {
+						return v
+					}
+					// exactly what repeated Put on a fresh map of the same kind and configuration gives
+					fresh := b.sys.newBox().a
+					for _, c := range ch {
+						fresh.put(cod[c].k, cod[c].v)
+					}
+					if gk, wk := r.keys(), fresh.keys(); !eqSlice(gk, wk) {
+						return viol(tag("C14"), "mismatch", "Keys() = %v, but putting the mapped pairs one by one into a fresh %s gives %v", gk, b.a.name, wk)
+					}
+					if gv, wv := r.values(), fresh.values(); !eqSlice(gv, wv) {
+						return viol(tag("C14"), "mismatch", "Values() = %v, but putting the mapped pairs one by one into a fresh %s gives %v", gv, b.a.name, wv)
+					}
+					return nil
+				}, r.obj, func() { r.put(b.sys.KU[len(b.sys.KU)-1], lastV); r.remove(b.sys.KU[0]); r.clear() }, func(ch []int) Box {
+					rb := &kvBox[K, V]{sys: b.sys, a: r}
+					for _, c := range ch {
+						rb.refPut(cod[c].k, cod[c].v)
+					}
+					return rb
 				}
-				if v := rb.CheckState(); v != nil {
-					return v
-				}
-				// exactly what repeated Put on a fresh map of the same kind and configuration gives
-				fresh := b.sys.newBox().a
-				for _, c := range ch {
-					fresh.put(cod[c].k, cod[c].v)
-				}
-				if gk, wk := r.keys(), fresh.keys(); !eqSlice(gk, wk) {
-					return viol(tag("C14"), "mismatch", "Keys() = %v, but putting the mapped pairs one by one into a fresh %s gives %v", gk, b.a.name, wk)
-				}
-				if gv, wv := r.values(), fresh.values(); !eqSlice(gv, wv) {
-					return viol(tag("C14"), "mismatch", "Values() = %v, but putting the mapped pairs one by one into a fresh %s gives %v", gv, b.a.name, wv)
-				}
-				return nil
-			}, r.obj, func() { r.put(b.sys.KU[len(b.sys.KU)-1], lastV); r.remove(b.sys.KU[0]); r.clear() }
 		}}
 }
 
@@ -396,11 +541,8 @@ func init() {
 				if ad == nil {
 					return nil
 				}
-				if len(ad.seq) > j.p("maxn", 5) {
-					return nil
-				}
 				st.Nested["enum_states"]++
-				return enumCheck(ad, maxFns, st)
+				return enumCheck(ad, j.p("maxn", 5), maxFns, st)
 			}
 		})
 	}
